@@ -155,8 +155,8 @@ def moveConstruct (s : State) (src dst : Option Loc) : State :=
   match src, dst with
   | some p, some q =>
     match objAt s p with
-    | some o => constructAt (setObj s p (some { o with val := 0 })) q o.val o.ty
-                  (fun id => .move id o.id)
+    | some o => setObj (constructAt s q o.val o.ty (fun id => .move id o.id)) p
+                  (some { o with val := 0 })
     | none => fail s "move-construct from storage without a live object"
   | _, _ => fail s "move-construct through a null pointer"
 
